@@ -274,3 +274,66 @@ func onPathOnly(lines []string, guard string) []string {
 	}
 	return out
 }
+
+// gcDecls drops the declarations and definitions of symbols that the query never mentions
+// (transitively). The prelude accumulates ghost declarations of every function processed
+// so far; without this the text of a query - and with it the solver's heuristic choices -
+// would depend on which other functions were verified before.
+func gcDecls(text string) string {
+	lines := strings.Split(text, "\n")
+	type decl struct {
+		sym  string
+		syms []string
+		def  bool
+	}
+	decls := map[int]*decl{}
+	bySym := map[string][]int{}
+	need := map[string]bool{}
+	var work []string
+	add := func(syms []string) {
+		for _, s := range syms {
+			if !need[s] {
+				need[s] = true
+				work = append(work, s)
+			}
+		}
+	}
+	for i, l := range lines {
+		switch {
+		case strings.HasPrefix(l, "(declare-fun "), strings.HasPrefix(l, "(declare-const "), strings.HasPrefix(l, "(define-fun "):
+			f := strings.Fields(l)
+			if len(f) < 2 {
+				add(symbolsOf(l))
+				continue
+			}
+			d := &decl{sym: strings.TrimSuffix(f[1], ")"), def: strings.HasPrefix(l, "(define-fun ")}
+			if d.def {
+				d.syms = symbolsOf(l)
+			}
+			decls[i] = d
+			bySym[d.sym] = append(bySym[d.sym], i)
+		default:
+			add(symbolsOf(l))
+		}
+	}
+	for len(work) > 0 {
+		s := work[len(work)-1]
+		work = work[:len(work)-1]
+		for _, i := range bySym[s] {
+			if decls[i].def {
+				add(decls[i].syms)
+			}
+		}
+	}
+	var b strings.Builder
+	for i, l := range lines {
+		if d, ok := decls[i]; ok && !need[d.sym] {
+			continue
+		}
+		b.WriteString(l)
+		if i < len(lines)-1 {
+			b.WriteByte('\n')
+		}
+	}
+	return b.String()
+}
